@@ -9,7 +9,10 @@ Executable contract (oracle = the property statement, expressed without the code
               extremes):  write -> read == container (every record the header announces is present and equal);
               write -> read -> write byte identical; the same through the ASCII encoding and across encodings.
               An independent serialisation of the container from the CCCC record layout (written here from the file
-              specifications, never from armi code) must equal the file armi wrote, byte for byte.
+              specifications, never from armi code) must equal the file armi wrote, byte for byte (this also sees
+              changes that reader and writer share, e.g. two fields swapped in a readWrite()).  A second well-formed
+              file, obtained by perturbing every data word of the written file, must also be rewritten identically
+              (sees file fields the container drops or duplicates).
 3. framing    every binary file seen (fixtures and generated) is walked with an own parser of the FORTRAN framing:
               4-byte count, payload, identical 4-byte count; records tile the file.  Records of random field-type
               sequences (int, long, float, double, string, bool, list, matrix, implicit map) through the real
@@ -19,6 +22,9 @@ Violation ids:  <format>.<clause>[.<probe>]  -  clause in  fixture-rewrite-bytes
 roundtrip, roundtrip-ascii, optional-record-lost, rewrite-bytes, rewrite-ascii, ascii-to-binary, file-content,
 file-content-ascii, patched-rewrite, write-error, read-error, write-error-ascii, read-error-ascii;  frame.count-mismatch,
 frame.tiling, frame.ascii-count-mismatch, record.*;  ascii.int-width / ascii.double-width (fixed-width ASCII fields).
+A <probe> is one header feature outside the mainstream family (ISOTXS sub-blocked scatter, several orders in one block,
+user file label; PMATRX activation cross sections, production order 3; COMPXS file-wide chi, delayed families; GEODST region
+numbers beyond int16): it is reported under its own id and stops at its first violated clause.
 """
 import contextlib
 import io
@@ -68,11 +74,11 @@ B = Bounded(
     "through write->read->write in both encodings and compared with an independent serialisation of the record layout; "
     "(3) own FORTRAN-frame walker on every binary file, random field-type sequences through the record classes. "
     "distinct = (format, header parameters, value profile, case seed)",
-    bound="groups<=4, nuclides/compositions<=3, mesh cells per direction<=5 (coarse<=3), blocking factors 1..3, scattering blocks<=4, "
-    "strings 0..n chars; quick: ~1.1k generated containers + 300 records, thorough: ~9k containers + 6000 records",
+    bound="groups<=4, nuclides/compositions<=3, mesh cells per direction<=5 (coarse meshes<=3, fine<=6), blocking factors 1..3 (<= rows), "
+    "scattering blocks<=4, Legendre/production orders<=3, strings 0..n characters, <=7 fields per random record; "
+    "quick: all repo fixtures + ~2.9k generated containers + 800 record files; thorough: ~46k containers + 24k record files",
 )
 THOROUGH = B.thorough()
-HERE = os.path.dirname(os.path.abspath(__file__))
 REPO = os.path.dirname(os.path.dirname(os.path.abspath(cccc.__file__)))  # .../armi/nuclearDataIO
 REPO = os.path.dirname(os.path.dirname(REPO))  # tree under test
 FX_CCCC = os.path.join(REPO, "armi", "nuclearDataIO", "cccc", "tests", "fixtures")
@@ -101,7 +107,7 @@ def attempt(fn, *a):
     try:
         return True, fn(*a)
     except Exception as e:  # the contract: a well-formed container / file never raises
-        msg = str(e).strip().splitlines()
+        msg = str(e).replace(STATS.get("tmp", "\0"), "<tmp>").strip().splitlines()
         return False, "%s: %s" % (type(e).__name__, (msg[-1] if msg else "")[-220:])
 
 
@@ -268,8 +274,8 @@ def canon(v):
             a = np.asarray(v)
         except ValueError:
             a = None
-        if a is None or a.dtype == object:
-            return [canon(x) for x in v]
+        if a is None or a.dtype == object or (a.dtype.kind in "US" and not all(isinstance(x, str) for x in v)):
+            return [canon(x) for x in v]  # ragged or mixed: element by element (numpy would turn numbers into text)
         v = a
     if isinstance(v, np.ndarray):
         if v.size == 0:
@@ -1242,8 +1248,9 @@ def has_wide(tree):
 
 def run_fixture(path, fmtname, enc, tmp):
     fmt = FMT[fmtname]
-    rel = os.path.relpath(path, REPO)
-    B.case(("fixture", rel), sample={"fixture": rel, "format": fmtname})
+    relpath = os.path.relpath(path, REPO)
+    rel = {"fixture": relpath, "format": fmtname}
+    B.case(("fixture", relpath), sample=rel)
     o1, o2, a1, a2 = (os.path.join(tmp, n) for n in ("o1", "o2", "a1", "a2"))
     if enc == "b":
         pay = walk_binary(path, rel)
@@ -1253,7 +1260,7 @@ def run_fixture(path, fmtname, enc, tmp):
         ok, err = attempt(fmt.wb, d, o1)
         if not check(ok, fmtname + ".fixture-write-error", "writeBinary raised on what was read from a fixture", [rel, err]):
             return
-        pay1 = walk_binary(o1, rel + " (rewritten)")
+        pay1 = walk_binary(o1, [rel, "rewritten"])
         only_id = pay is not None and pay1 is not None and len(pay) == len(pay1) and [k for k in range(len(pay)) if pay[k] != pay1[k]] == [0]
         sub = ".file-label" if only_id and fmtname in ("isotxs", "gamiso") else ""
         check(rdb(o1) == rdb(path), fmtname + ".fixture-rewrite-bytes" + sub, "write(read(fixture)) is not the fixture, byte for byte" + (" (only the file identification record differs)" if sub else ""), lambda: [rel, pay[0].decode("latin1"), pay1[0].decode("latin1")] if sub else rel)
@@ -1285,7 +1292,7 @@ def run_fixture(path, fmtname, enc, tmp):
         ok, err = attempt(fmt.wb, d, o1)
         ok2, dB = attempt(fmt.rb, o1) if ok else (False, err)
         if check(ok and ok2, fmtname + ".fixture-ascii", "ascii fixture -> binary -> read fails", [rel, dB]):
-            pay = walk_binary(o1, rel + " (as binary)")
+            pay = walk_binary(o1, [rel, "as binary"])
             check(pay is None or counts is None or [len(x) for x in pay] == counts, "frame.ascii-count-mismatch", "binary record lengths differ from the counts of the ASCII fixture", rel)
             dd = diff(fmt.snap(d), fmt.snap(dB)) + diff(fmt.snap(dB), fmt.snap(d))
             check(not dd, fmtname + ".fixture-reread", "ascii fixture -> binary -> read differs", [rel, dd])
@@ -1299,7 +1306,7 @@ def all_fixtures():
 
     seen, out, dup, other = {}, [], 0, []
     for root, dirs, files in os.walk(os.path.join(REPO, "armi")):
-        dirs[:] = [x for x in dirs if x != "__pycache__"]
+        dirs[:] = sorted(x for x in dirs if x != "__pycache__")
         for fn in sorted(files):
             if "fixtures" not in root and not (fn.startswith("ISO") or fn.upper().startswith("COMPXS")):
                 continue
@@ -1436,7 +1443,7 @@ def apply_fields(rec, fields, writing):
     return got
 
 
-def wanted_values(fields, single):
+def wanted_values(fields):
     out = []
     for f in fields:
         k = f[0]
@@ -1489,7 +1496,7 @@ def run_records(index, profile, tmp):
         else:
             walk_ascii(path, inp, None if wide else [r.nbytes() for r in spec])
         ok, got = attempt(read)
-        if not ok or not all(values_equal(wanted_values(r, False), g, profile == "double" and enc == "binary") for r, g in zip(recs, got)):
+        if not ok or not all(values_equal(wanted_values(r), g, profile == "double" and enc == "binary") for r, g in zip(recs, got)):
             check(False, wide[0] if wide else "record.readback." + enc, "fields read back differ from the fields written (or the reader raised)", [inp, got if not ok else "values differ"])
 
 
@@ -1517,7 +1524,7 @@ def ascii_width_probes(tmp):
 def cases(family):
     """Yield json-able parameter dicts (without cseed); deterministic given the seed."""
     rng = random.Random("enum/%s/%s" % (family, B.seed))
-    rep = 6 if THOROUGH else 1
+    rep = 48 if THOROUGH else 3
     prof = lambda k: PROFILES[k % 4]  # noqa: E731
     if family == "geodst":
         k = 0
@@ -1540,7 +1547,7 @@ def cases(family):
         n = 0
         for variant in (False, True):
             for adjoint in (False, True):
-                for k in range(120 if THOROUGH else 14):
+                for k in range(700 if THOROUGH else 30):
                     lo = k == 0
                     hi = k == 1
                     pick = lambda a, b: a if lo else b if hi else rng.randint(a, b)  # noqa: E731
@@ -1632,7 +1639,7 @@ def cases(family):
     elif family == "fixsrc":
         k = 0
         shapes = list(itertools.product((1, 2, 3), repeat=4))
-        for shape in shapes if THOROUGH else shapes[:: max(1, len(shapes) // 24)]:
+        for shape in shapes * 4 if THOROUGH else shapes[:: max(1, len(shapes) // 24)]:
             k += 1
             yield dict(shape=list(shape), profile="ordinary" if k % 3 else "extreme")
 
@@ -1643,7 +1650,11 @@ FAMILIES = ("geodst", "dif3d", "nhflux", "labels", "pwdint", "rtflux", "rzflux",
 def main(tmp):
     if B.replay is not None:
         r = B.replay
-        if r.get("family") == "fixsrc":
+        while isinstance(r, list) and r and isinstance(r[0], (list, dict)):
+            r = r[0]  # a recorded violation input: [case, detail]
+        if isinstance(r, list):
+            ascii_width_probes(tmp)
+        elif r.get("family") == "fixsrc":
             run_fixsrc(r["params"], tmp)
         elif r.get("family") == "records":
             run_records(r["index"], r["profile"], tmp)
@@ -1667,7 +1678,7 @@ def main(tmp):
             (run_fixsrc(p, tmp) if family == "fixsrc" else run_case(family, p, tmp))
         per_family[family] = B.evaluations - n0
     n0 = B.evaluations
-    for k in range(3000 if THOROUGH else 150):
+    for k in range(12000 if THOROUGH else 400):
         run_records(k, PROFILES[k % 4], tmp)
     per_family["records"] = B.evaluations - n0
     B.extra["generated_per_family"] = per_family
@@ -1675,11 +1686,19 @@ def main(tmp):
 
 with tempfile.TemporaryDirectory(prefix="c09_") as TMP:
     cwd = os.getcwd()
-    with contextlib.redirect_stdout(io.StringIO()):
-        try:
+    STATS["tmp"] = TMP
+    sys.stdout.flush()
+    fd_saved, fd_null = os.dup(1), os.open(os.devnull, os.O_WRONLY)
+    os.dup2(fd_null, 1)  # armi's log handler keeps the real stdout: silence it at the descriptor, the JSON line comes last
+    try:
+        with contextlib.redirect_stdout(io.StringIO()):
             main(TMP)
-        finally:
-            os.chdir(cwd)
+    finally:
+        sys.stdout.flush()
+        os.dup2(fd_saved, 1)
+        os.close(fd_saved)
+        os.close(fd_null)
+        os.chdir(cwd)
 
 B.extra["formats_covered"] = sorted(FMT) + ["fixsrc"]
 B.extra["outside_quantifier"] = {
@@ -1692,7 +1711,10 @@ B.extra["outside_quantifier"] = {
     "GEODST IGOM 4,5": "not defined by CCCC-IV",
     "values": "NaN/Inf, strings longer than the field, with trailing blanks or non-ASCII characters, reals outside single precision in 'f' fields are not well-formed",
 }
+B.extra["armi_cannot_write"] = []  # every format has a writer
+B.extra["armi_cannot_read"] = ["fixsrc: readBinary exists but raises on every non-empty file (violation fixsrc.read-error); the written file is checked against the specification layout instead"]
 B.extra["violation_counts"] = VCOUNT
+STATS.pop("tmp", None)
 B.extra.update(STATS)
 if B.replay is not None:
     print(json.dumps({"result": "fail" if B.violations else "pass", "violations": B.violations}, default=str))
